@@ -87,7 +87,7 @@ structure Facts (fx : Fixes) (f : File) (g : Grammar) where
   below : ∀ p, p ∈ g.prods → ∀ a, a ∈ p.rhs → IdxBelow (ts.terms.length + st.nts.length) a
   ps1 : List GProd
   hres1 : resolveInline (matchesOf f ts) st.prods = .ok ps1
-  hres2 : resolveRefs fx.stopRefErr ts.terms st.nts ps1 = .ok g.prods
+  hres2 : resolveRefs fx.rflags ts.terms st.nts ps1 = .ok g.prods
 
 theorem build_facts {fx : Fixes} {f : File} {g : Grammar} (hr : Regular fx f) (h : build fx f = .ok g) :
     Nonempty (Facts fx f g) := by
